@@ -15,6 +15,8 @@ pub const ENGINE_CHECKED: &str = "/verif/target/engine-checked/release/rustybait
 pub const LINE_CAP: u64 = 400_000;
 
 pub struct Session {
+    /// lines in which the output of two threads got spliced together (e.g. `info pv readyok`)
+    pub spliced_lines: Vec<String>,
     child: Child,
     stdin: Option<ChildStdin>,
     rx: Receiver<Option<(Instant, String)>>,
@@ -86,7 +88,7 @@ impl Session {
             });
         }
         let stdin = child.stdin.take();
-        Ok(Session { child, stdin, rx, stderr: errs, log: Vec::new(), lines_seen, flooded, eof: false, t0: Instant::now() })
+        Ok(Session { spliced_lines: Vec::new(), child, stdin, rx, stderr: errs, log: Vec::new(), lines_seen, flooded, eof: false, t0: Instant::now() })
     }
 
     fn note(&mut self, s: String) {
@@ -111,6 +113,9 @@ impl Session {
         match self.rx.recv_timeout(timeout) {
             Ok(Some((t, s))) => {
                 self.note(format!("< {}", s.chars().take(200).collect::<String>()));
+                if spliced(&s) && self.spliced_lines.len() < 10 {
+                    self.spliced_lines.push(s.clone());
+                }
                 Some((t, s))
             }
             Ok(None) | Err(RecvTimeoutError::Disconnected) => {
@@ -178,6 +183,14 @@ impl Session {
     }
 
     pub fn stderr_text(&self) -> String {
+        // the stderr reader is a separate thread: give it a moment after a crash
+        for _ in 0..30 {
+            if !self.stderr.lock().unwrap().is_empty() {
+                std::thread::sleep(Duration::from_millis(20));
+                break;
+            }
+            std::thread::sleep(Duration::from_millis(10));
+        }
         self.stderr.lock().unwrap().join("\n")
     }
 
@@ -273,4 +286,37 @@ pub fn info_pvs(lines: &[String]) -> Vec<Vec<String>> {
 
 pub fn bestmove_of(lines: &[String]) -> Option<String> {
     lines.iter().rev().find_map(|l| l.strip_prefix("bestmove ")).map(|s| s.trim().to_string())
+}
+
+/// `readyok`, tolerant of being spliced into another line (only C14 insists on the exact line)
+pub fn readyok(l: &str) -> bool {
+    l.contains("readyok")
+}
+
+fn looks_like_move(t: &str) -> bool {
+    let b = t.as_bytes();
+    (b.len() == 4 || b.len() == 5)
+        && (b'a'..=b'h').contains(&b[0])
+        && (b'1'..=b'8').contains(&b[1])
+        && (b'a'..=b'h').contains(&b[2])
+        && (b'1'..=b'8').contains(&b[3])
+        && (b.len() == 4 || b"qrbn".contains(&b[4]))
+}
+
+/// A stdout line that can only arise when the output of two threads was spliced together:
+/// a protocol word in the middle of a line, or an `info pv` line with a token that is not a move.
+pub fn spliced(l: &str) -> bool {
+    for w in ["readyok", "uciok", "bestmove ", "error:", "info depth", "info score", "info nodes", "info time"] {
+        if let Some(i) = l.find(w) {
+            if i > 0 {
+                return true;
+            }
+        }
+    }
+    if let Some(rest) = l.strip_prefix("info pv") {
+        if rest.split_ascii_whitespace().any(|t| !looks_like_move(t)) {
+            return true;
+        }
+    }
+    false
 }
